@@ -193,7 +193,7 @@ CanEmpty(g) ==
     [] o = "sleq" -> CanEmpty(g[2])
     [] o = "tpadded" -> CanEmpty(g[2])
     [] o \in {"end", "empty", "probe", "cfgjust", "cfgjustr"} -> TRUE
-    [] o = "cust" -> g[2] = 0 /\ g[3]
+    [] o \in {"cust", "ext"} -> g[2] = 0 /\ g[3]
     [] o \in {"then", "ithen", "theni"} -> CanEmpty(g[2]) /\ CanEmpty(g[3])
     [] o = "delim" -> CanEmpty(g[2]) /\ CanEmpty(g[3]) /\ CanEmpty(g[4])
     [] o = "padded" -> CanEmpty(g[2])
@@ -239,7 +239,7 @@ WFStrat(s) ==
     [] Op(s) \in {"skipuntil", "retry"} -> WF(s[2]) /\ WF(s[3]) /\ ~CanEmpty(s[2])
 WF(g) ==
   LET o == Op(g) IN
-  CASE o \in {"just", "any", "oneof", "noneof", "sel", "end", "empty", "cust", "probe", "cfgjust", "cfgjustr", "ref", "var", "tree", "anyr", "selr", "newline"} -> TRUE
+  CASE o \in {"just", "any", "oneof", "noneof", "sel", "end", "empty", "cust", "ext", "probe", "cfgjust", "cfgjustr", "ref", "var", "tree", "anyr", "selr", "newline"} -> TRUE
     [] o = "text" -> WF(g[4])
     [] o \in {"sleq", "tpadded"} -> WF(g[2])
     [] o \in {"then", "ithen", "theni", "or", "andis", "thenctx", "ignctx", "nested", "let"} -> WF(g[2]) /\ WF(g[3])
@@ -263,7 +263,7 @@ IsNode(x) == /\ DOMAIN x # {} /\ 1 \in DOMAIN x
 HasOp(g, ops) ==
   LET o == Op(g) IN
   \/ o \in ops
-  \/ CASE o \in {"just", "any", "oneof", "noneof", "sel", "end", "empty", "cust", "probe", "cfgjust", "cfgjustr", "ref", "var", "tree", "anyr", "selr", "newline"} -> FALSE
+  \/ CASE o \in {"just", "any", "oneof", "noneof", "sel", "end", "empty", "cust", "ext", "probe", "cfgjust", "cfgjustr", "ref", "var", "tree", "anyr", "selr", "newline"} -> FALSE
        [] o = "text" -> HasOp(g[4], ops)
        [] o \in {"sleq", "tpadded"} -> HasOp(g[2], ops)
        [] o \in {"then", "ithen", "theni", "or", "andis", "thenctx", "ignctx", "nested", "padded", "let"} -> HasOp(g[2], ops) \/ HasOp(g[3], ops)
@@ -288,7 +288,7 @@ MemoSubSeq(s) == IF s = <<>> THEN {} ELSE MemoSub(Head(s)) \cup MemoSubSeq(Tail(
 MemoSub(g) ==
   LET o == Op(g) IN
   (IF o = "memo" THEN {g} ELSE {}) \cup
-  CASE o \in {"just", "any", "oneof", "noneof", "sel", "end", "empty", "cust", "probe", "cfgjust", "cfgjustr", "ref", "var", "tree", "anyr", "selr", "newline"} -> {}
+  CASE o \in {"just", "any", "oneof", "noneof", "sel", "end", "empty", "cust", "ext", "probe", "cfgjust", "cfgjustr", "ref", "var", "tree", "anyr", "selr", "newline"} -> {}
     [] o = "text" -> MemoSub(g[4])
     [] o \in {"sleq", "tpadded"} -> MemoSub(g[2])
     [] o \in {"then", "ithen", "theni", "or", "andis", "thenctx", "ignctx", "nested", "padded", "let", "sep", "foldl", "foldr", "foldlw", "foldrw",
@@ -305,7 +305,7 @@ RECURSIVE SizeSeq(_)
 SizeSeq(s) == IF s = <<>> THEN 0 ELSE Size(Head(s)) + SizeSeq(Tail(s))
 Size(g) ==
   LET o == Op(g) IN
-  CASE o \in {"just", "any", "oneof", "noneof", "sel", "end", "empty", "cust", "probe", "cfgjust", "cfgjustr", "ref", "tree", "anyr", "selr", "newline", "text", "nesteddelim"} -> 1
+  CASE o \in {"just", "any", "oneof", "noneof", "sel", "end", "empty", "cust", "ext", "probe", "cfgjust", "cfgjustr", "ref", "tree", "anyr", "selr", "newline", "text", "nesteddelim"} -> 1
     [] o \in {"then", "ithen", "theni", "or", "andis", "thenctx", "ignctx", "nested", "padded", "sep", "foldl", "foldr", "foldlw", "foldrw", "recover", "skipuntil", "retry"} -> 1 + Size(g[2]) + Size(g[3])
     [] o = "delim" -> 1 + Size(g[2]) + Size(g[3]) + Size(g[4])
     [] o \in {"group", "grouparr", "choice", "choicev"} -> 1 + SizeSeq(g[2])
